@@ -5,3 +5,18 @@ layout('h2.windows.WindowManager', {
     'current_window_size': 'int',
     '_bytes_processed': 'int',
 })
+
+layout('h2.stream.H2StreamStateMachine', {
+    'state': 'enum:StreamState',
+    'stream_id': 'int',
+    'client': 'optbool',
+    'headers_sent': 'optbool',
+    'trailers_sent': 'optbool',
+    'headers_received': 'optbool',
+    'trailers_received': 'optbool',
+    'stream_closed_by': 'optenum:StreamClosedBy',
+})
+
+layout('h2.connection.H2ConnectionStateMachine', {
+    'state': 'enum:ConnectionState',
+})
